@@ -2,7 +2,7 @@ from ..jobs import CH
 
 H = "vf.harness.frontends"
 META = {
-    "bounds": {"quick": "7 nesting shapes (alternating sequential/parallel to depth 4, empty blocks (also leading / in the middle of parallel branches), subcircuit block, loops at sequential level, loop inside parallel), "
+    "bounds": {"quick": "8 nesting shapes (alternating sequential/parallel to depth 4, empty blocks (also leading / in the middle of parallel branches), subcircuit block, loops at sequential level, loop inside parallel), "
                         "four branch lengths 0..3 symbolic",
                "thorough": "branch lengths 0..4"},
     "assumptions": ["unit-time schedule: gate = 1 step, loops and subcircuit blocks are opaque units whose inner schedule is compared recursively",
@@ -15,7 +15,7 @@ def jobs(tier):
     q = tier == "quick"
     m = 3 if q else 4
     out = []
-    for shape in range(7):
+    for shape in range(8):
         for l0 in range(m + 1):
             out.append(CH(name=f"c19_timing_s{shape}_l{l0}", base="c19_timing", func=f"{H}:c19_timing", params=[("l1", "int"), ("l2", "int"), ("l3", "int")],
                           pre=[f"0 <= l1 <= {m}", f"0 <= l2 <= {m}", f"0 <= l3 <= {m}"], fixed={"shape": shape, "l0": l0}, timeout=600 if q else 2400,
